@@ -97,6 +97,8 @@ enum FileVia {
 }
 
 struct WorldSpec {
+    /// (standard input is a terminal, standard output is a terminal)
+    tty: (bool, bool),
     file_via: FileVia,
     sub: Sub,
     usage: Usage,
@@ -300,7 +302,30 @@ fn gen_world(t: &mut Tape) -> WorldSpec {
         }
     }
     let stdin_kind = if file_via == FileVia::DevStdinPipe { StdinKind::Pipe } else { stdin_kind };
+    // terminal worlds: standard input and/or standard output is a
+    // pseudo-terminal (interactive use); input is kept to short plain lines
+    let mut tty = (false, false);
+    if usage == Usage::Normal
+        && matches!(fault, FileFault::None | FileFault::Empty)
+        && file_via != FileVia::DevStdinPipe
+        && t.chance(1, 9)
+    {
+        tty = [(true, false), (false, true), (true, true)][t.draw(3) as usize];
+        if tty.0 {
+            stdin = (*t.pick(&[
+                "alpha\nbeta gamma\n\nd\u{e9}j\u{e0} vu\nlast\n",
+                "one\n",
+                "",
+                "5\n7\n\n",
+                "tabs\tinside\nand more\nlines\nto\nread\n",
+            ]))
+            .as_bytes()
+            .to_vec();
+            stdin_not_utf8 = false;
+        }
+    }
     WorldSpec {
+        tty,
         file_via,
         sub,
         usage,
@@ -714,9 +739,29 @@ impl Property for C20 {
             stdin_kind: w.stdin_kind,
             shared_out_err: false,
         };
-        let sep = procworld::run(&spec, &scratch, "sep");
-        spec.shared_out_err = true;
-        let shared = procworld::run(&spec, &scratch, "shared");
+        let (sep, shared) = if w.tty != (false, false) {
+            match procworld::run_pty(&spec, &scratch, "pty", w.tty.0, w.tty.1) {
+                Ok(Some(r)) => {
+                    stats.inc(&format!(
+                        "count.terminal_world.stdin_tty={}.stdout_tty={}",
+                        w.tty.0, w.tty.1
+                    ));
+                    (Ok(r.clone()), Ok(r))
+                }
+                Ok(None) => {
+                    // no python3 to make a pseudo-terminal with: plain world
+                    stats.inc("count.terminal_world_skipped_no_python3");
+                    let a = procworld::run(&spec, &scratch, "sep");
+                    spec.shared_out_err = true;
+                    (a, procworld::run(&spec, &scratch, "shared"))
+                }
+                Err(e) => (Err(e.clone()), Err(e)),
+            }
+        } else {
+            let a = procworld::run(&spec, &scratch, "sep");
+            spec.shared_out_err = true;
+            (a, procworld::run(&spec, &scratch, "shared"))
+        };
         let (sep, shared) = match (sep, shared) {
             (Ok(a), Ok(b)) => (a, b),
             (Err(e), _) | (_, Err(e)) => {
@@ -816,6 +861,8 @@ impl Property for C20 {
                 ("environment", J::A(spec.env.iter().map(|(k, v)| J::s(format!("{}={}", k, v))).collect())),
                 ("file_fault", J::s(format!("{:?}", w.fault))),
                 ("file_reached_via", J::s(format!("{:?}", w.file_via))),
+                ("stdin_is_terminal", J::Bool(w.tty.0)),
+                ("stdout_is_terminal", J::Bool(w.tty.1)),
                 ("source_kind", J::s(w.source_kind)),
                 ("file_contents", J::S(render_bytes(&w.source))),
                 ("stdin_kind", J::s(format!("{:?}", w.stdin_kind))),
